@@ -498,7 +498,12 @@ func (m *klMachine) invariants() error {
 			}
 		}
 	}
+	var mkeys []string
 	for kc := range m.ents {
+		mkeys = append(mkeys, kc)
+	}
+	sort.Strings(mkeys)
+	for _, kc := range mkeys {
 		if !seen[kc] {
 			if m.f41() {
 				return nil
@@ -531,7 +536,8 @@ func (m *klMachine) invariants() error {
 		}
 	}
 	exp := model.NewNode(m.site.owner)
-	for _, e := range m.ents {
+	for _, kc := range mkeys {
+		e := m.ents[kc]
 		exp.List[f.Name] = append(exp.List[f.Name], &model.Entry{Key: e.key, N: e.node.Clone()})
 	}
 	if d := model.Diff(exp.Normalize(), obs.Normalize(), model.DiffOpts{}); len(d) > 0 {
@@ -774,11 +780,11 @@ func TestC34_Exhaustive(t *testing.T) {
 				rec.Sample(map[string]interface{}{"list": site.id(), "exhaustive": true, "history": strings.Join(m.hist, " ; "), "final_keys": m.modelKeys()})
 			}
 		}
+		// shorter sequences first, so that the first failure is a shortest one
+		want := 0
 		dfs = func() {
-			if len(seq) > 0 {
+			if len(seq) == want {
 				run()
-			}
-			if len(seq) == maxLen {
 				return
 			}
 			for li := range alpha {
@@ -790,7 +796,9 @@ func TestC34_Exhaustive(t *testing.T) {
 				seq = seq[:len(seq)-1]
 			}
 		}
-		dfs()
+		for want = 1; want <= maxLen; want++ {
+			dfs()
+		}
 	}
 	rec.Exhaustive()
 	rec.Add("exhaustive_sequences", total)
